@@ -59,7 +59,7 @@ Theorem eject_only_if_room :
     y = x /\ (f x fS d = EJECTING \/ f x fS d = BL) /\
     (f x fTG d <> PF ->
        isdev c (f x fTG d) = true /\
-       Z.of_nat (length (inc x (f x fTG d))) < cap c (f x fTG d) - f x fC (f x fTG d)).
+       Z.of_nat (length (others d (inc x (f x fTG d)))) < cap c (f x fTG d) - f x fC (f x fTG d)).
 Proof. exact eject_only_if_room_l. Qed.
 Print Assumptions eject_only_if_room.
 
